@@ -65,10 +65,23 @@ def typedOf (cvt : Int → Nat) (req : Request) : Option TypedQ :=
 
 def replyListEq (a b : List Reply) : Bool := decide (a = b)
 
-/-- walk the history; `none` = the property held -/
-def P_C19_history (cvt : Int → Nat) : Tracker → List CertQ → Verdict
-  | _, [] => none
-  | tr, q :: rest =>
+/-- a refused request was seen earlier in the history: a later canonical request that fails
+    is reported as the refused request having affected another client -/
+def rejectedReason (refused : List String) (cid : Option String) : String :=
+  let other := match cid with
+    | some c => !refused.isEmpty && !refused.contains c
+    | none => !refused.isEmpty
+  if other then "canonical-client-failed-after-a-refused-request" else "canonical-request-rejected"
+
+def isRefusal (q : CertQ) : Bool :=
+  q.closed || q.replies.isEmpty || q.replies.any fun r => r.error == some sClientIdError
+
+/-- walk the history; `none` = the property held.  `seen` = the client ids of the earlier
+    requests of this history that were refused (ClientIdError, or no answer at all): when a
+    canonical request of ANOTHER client (or a `Start`) fails afterwards, the reason says so. -/
+def P_C19_history (cvt : Int → Nat) : List String → Tracker → List CertQ → Verdict
+  | _, _, [] => none
+  | seen, tr, q :: rest =>
     let badReply := q.replies.any fun r =>
       match r.error with
       | some e => !allowedErrors.contains e
@@ -79,7 +92,7 @@ def P_C19_history (cvt : Int → Nat) : Tracker → List CertQ → Verdict
       -- not a request at all: nothing may be answered
       if !q.replies.isEmpty then some "reply-to-undecodable-request"
       else if q.cls == "canon" || q.cls == "same" then some "classification-mismatch"
-      else P_C19_history cvt tr rest
+      else P_C19_history cvt seen tr rest
     | some req =>
       if req.method == startMethod then
         let canon := startOk req
@@ -87,19 +100,19 @@ def P_C19_history (cvt : Int → Nat) : Tracker → List CertQ → Verdict
         | some id =>
           if !canon then some "success-for-deviating-request"
           else if q.cls == "dev" then some "classification-mismatch"
-          else P_C19_history cvt (tr.put id .t01) rest
+          else P_C19_history cvt seen (tr.put id .t01) rest
         | none =>
-          if canon then some "canonical-request-rejected"
+          if canon then some (rejectedReason seen none)
           else if q.cls == "canon" || q.cls == "same" then some "classification-mismatch"
           else if q.replies.any (fun r => r.error.isNone) then some "success-for-deviating-request"
-          else P_C19_history cvt tr rest
+          else P_C19_history cvt seen tr rest
       else
         match typedOf cvt req with
         | none =>
           -- unknown method, absent or ill-typed parameters: never a success reply
           if q.replies.any (fun r => r.error.isNone) then some "success-for-deviating-request"
           else if q.cls == "canon" || q.cls == "same" then some "classification-mismatch"
-          else P_C19_history cvt tr rest
+          else P_C19_history cvt seen tr rest
         | some t =>
           let inOrder := tr.get t.cid == some t.step
           let canon := inOrder && t.typedCanon
@@ -108,9 +121,9 @@ def P_C19_history (cvt : Int → Nat) : Tracker → List CertQ → Verdict
           let anySuccessReply := q.replies.any fun r => r.error.isNone
           if (q.cls == "canon" || q.cls == "same") && !t.typedCanon then some "classification-mismatch"
           else if q.cls == "dev" && canon then some "classification-mismatch"
-          else if canon && !succ then some "canonical-request-rejected"
+          else if canon && !succ then some (rejectedReason seen (some t.cid))
           else if !canon && anySuccessReply then some "success-for-deviating-request"
-          else P_C19_history cvt tr' rest
+          else P_C19_history cvt (if !canon && isRefusal q then t.cid :: seen else seen) tr' rest
 
 /-- a concurrent canonical client: every step's replies are the success replies -/
 def clientAllSuccess (idx : Nat) (rs : List (Bool × List Reply)) : Bool :=
